@@ -6,12 +6,15 @@
   `src/gstools/covmodel/models.py` (`GSV/Gen/CorFormulas.lean`), once the uninterpreted `sps.gamma` / `sps.beta`
   are read as `Γ` and `B(a, b) = Γ(a) Γ(b) / Γ(a + b)` (that scipy computes these functions is trusted).
   Separate from `GenTieCor.lean` because it imports `GSV.Props.C03`.
+  Over `ℝ`, for all arguments, no side condition; proved by `tie_real` (`GenTieReal.lean`), which survives real-equal
+  rewrites of the source formulas (e.g. `a / √ν / B` -> `a / (√ν * B)`) and not semantic ones.
 -/
 import GSV.Props.C03
+import GSV.Props.GenTieReal
 import GSV.Gen.CorFormulas
 
 namespace GSV.Props.GenTieCorGamma
-open GSV GSV.Transc GSV.PyExpr GSV.Model.CovFn GSV.Gen.CorFormulas GSV.Props.C03
+open GSV GSV.Transc GSV.PyExpr GSV.Model.CovFn GSV.Gen.CorFormulas GSV.Props.C03 GSV.Props.GenTieReal
 
 /-- `scipy.special` with `gamma = Γ` and `beta = B` (the other functions are irrelevant here) -/
 noncomputable def gammaSps : Sps ℝ where
@@ -24,20 +27,18 @@ noncomputable def gammaSps : Sps ℝ where
   jv := fun _ x => x
   hyp2f1 := fun _ _ _ x => x
 
-theorem Stable_calc_integral_scale_eq_model (sps : Sps ℝ) (hΓ : ∀ x, sps.gamma x = Real.Gamma x)
+theorem Stable_calc_integral_scale_eq_model_real (sps : Sps ℝ) (hΓ : ∀ x, sps.gamma x = Real.Gamma x)
     (a : ℝ) (p : Par ℝ) : Stable.calc_integral_scale sps a (lenRescaled p) = stableCalcIS a p := by
-  simp only [Stable.calc_integral_scale, stableCalcIS, hΓ]; push_cast; rfl
+  tie_real [Stable.calc_integral_scale, stableCalcIS, hΓ]
 
-theorem Matern_calc_integral_scale_eq_model (sps : Sps ℝ)
+theorem Matern_calc_integral_scale_eq_model_real (sps : Sps ℝ)
     (hB : ∀ a b, sps.beta a b = Real.Gamma a * Real.Gamma b / Real.Gamma (a + b))
     (nu : ℝ) (p : Par ℝ) : Matern.calc_integral_scale sps (lenRescaled p) nu = maternCalcIS nu p := by
-  simp only [Matern.calc_integral_scale, maternCalcIS, hB, sqrt_real, pi_real]
-  norm_num
+  tie_real [Matern.calc_integral_scale, maternCalcIS, hB]
 
-theorem Rational_calc_integral_scale_eq_model (sps : Sps ℝ) (hΓ : ∀ x, sps.gamma x = Real.Gamma x)
+theorem Rational_calc_integral_scale_eq_model_real (sps : Sps ℝ) (hΓ : ∀ x, sps.gamma x = Real.Gamma x)
     (a : ℝ) (p : Par ℝ) : Rational.calc_integral_scale sps a (lenRescaled p) = rationalCalcIS a p := by
-  simp only [Rational.calc_integral_scale, rationalCalcIS, hΓ, sqrt_real, pi_real]
-  norm_num
+  tie_real [Rational.calc_integral_scale, rationalCalcIS, hΓ]
 
 /-- the hypotheses are satisfiable -/
 example : (∀ x, gammaSps.gamma x = Real.Gamma x)
